@@ -168,4 +168,93 @@ def windowsOk (qps burst : Int) (slack : Rat) : List (Int × Int) → Bool
   | [] => true
   | (t, g) :: r => prefixesOk qps burst slack t 0 ((t, g) :: r) && windowsOk qps burst slack r
 
+/-! ### definitions used in the statements of `KG.Props.C08` -/
+
+/-- the clock readings the limiter has seen are not later than `now` -/
+def Mono (b : Bucket) (now : Int) : Prop := ∀ l, b.last = some l → l ≤ now
+
+/-- tokens in the bucket at time `t` if nothing is taken until then -/
+def avail (b : Bucket) (t : Int) : Rat := (advance b t).2
+
+/-- what a call hands out -/
+def granted (ok : Bool) (n : Int) : Int := if ok then n else 0
+
+/-- clock readings that never go back, starting not before `t0` -/
+def Chain (t0 : Int) : List Int → Prop
+  | [] => True
+  | x :: r => t0 ≤ x ∧ Chain x r
+
+/-- the last reading (`t0` when there is none) -/
+def lastFrom (t0 : Int) : List Int → Int
+  | [] => t0
+  | x :: r => lastFrom x r
+
+def newId (state : Inst) (rid : Int) : Int := if rid > 0 then rid else state.requestId
+
+/-- an op "removes `inst`" when it is a `SetState` of `inst` with a negative count -/
+def Removes (inst : Str) : Op → Prop
+  | .set i _ c => i = inst ∧ c < 0
+  | .resize _ => False
+
+/-- limits and reported counts below 2^30 -/
+def Bounded : Op → Prop
+  | .set _ _ c => InI32 c ∧ c < 1073741824
+  | .resize n => 0 ≤ n ∧ n < 1073741824
+
+/-- `l` is an interleaving of the call lists `ts` of the threads (program order kept per thread) -/
+inductive Interleave : List (List Op) → List Op → Prop
+  | done (ts : List (List Op)) : (∀ t ∈ ts, t = []) → Interleave ts []
+  | step (ts : List (List Op)) (i : Nat) (op : Op) (rest l : List Op) :
+      ts[i]? = some (op :: rest) → Interleave (ts.set i rest) l → Interleave ts (op :: l)
+
+/-- a sequence of token acquisitions (the token-bucket arm of `DoAcquire`), each with the clock readings of its
+    `TryAcquireN` calls and the amount asked; returns the bucket and the total granted -/
+def runAcq (b : Bucket) : List (List Int × Int) → Bucket × Int
+  | [] => (b, 0)
+  | (nows, ask) :: rest =>
+    let r := tbLoop b ask nows
+    let s := runAcq r.1 rest
+    (s.1, r.2.2 + s.2)
+
+/-- asks are not negative and the clock readings, taken in the order in which the calls reach the limiter,
+    never go back (true for the fixed code: `TryAcquireN` reads the clock inside its critical section) -/
+def TimesOk (t0 : Int) : List (List Int × Int) → Prop
+  | [] => True
+  | (nows, ask) :: rest => 0 ≤ ask ∧ Chain t0 nows ∧ TimesOk (lastFrom t0 nows) rest
+
+/-- the last clock reading of the sequence -/
+def endTime (t0 : Int) : List (List Int × Int) → Int
+  | [] => t0
+  | (nows, _) :: rest => endTime (lastFrom t0 nows) rest
+
+/-- the clock, the bucket, and the tokens handed out so far -/
+structure TBSys where
+  clock : Int
+  b : Bucket
+  granted : Int
+
+/-- time passes, or some caller (any instance, any goroutine) executes one `TryAcquireN(n)` -/
+inductive TBStep where
+  | tick (d : Nat)
+  | tryAcquire (n : Int)
+
+def tbStep (s : TBSys) : TBStep → TBSys
+  | .tick d => { s with clock := s.clock + d }
+  | .tryAcquire n =>
+    let r := allowN s.b s.clock n
+    { s with b := r.1, granted := s.granted + granted r.2 n }
+
+def tbRun (s : TBSys) (steps : List TBStep) : TBSys := steps.foldl tbStep s
+
+/-- `t` halved `k` times the way `DoAcquire` does it -/
+def halve (t : Int) : Nat → Int
+  | 0 => t
+  | k + 1 => halve (t / KG.Gen.C08.tbDivisor) k
+
+def i1 : Str := [105, 49]
+def i2 : Str := [105, 50]
+
+/-- the history of the repaired defect: 60 + 30 under limit 100, limit lowered to 50, `i1` reports 40 -/
+def demoOps : List Op := [.set i1 1 60, .set i2 1 30, .resize 50, .set i1 2 40]
+
 end KG.Spec.GlobalCount
